@@ -19,6 +19,7 @@ const ModPrefix = "github.com/oasisprotocol/oasis-core/go"
 
 // Prog is the loaded, type-checked and SSA-lowered program.
 type Prog struct {
+	KnownFuncs, NewHelpers     int // rows of tables/known_funcs.tsv / functions analysed as part of their callers (ip.go)
 	NamesAliased, NamesRenamed int // functions rendered under the recorded parameter names / of which renamed since
 	RepoGo                     string
 	Fset                       *token.FileSet
